@@ -549,6 +549,8 @@ func (h *httpServerHandler) handleGet(ctx context.Context, w http.ResponseWriter
 		}
 	}()
 
+	verifYield("get:start", r)
+
 	// Check if GET SSE is enabled
 	if !h.enableGetSSE {
 		w.Header().Set("Allow", "POST, DELETE")
